@@ -51,7 +51,7 @@ func writeEvidence(id, tier string, seed int, results []*JobResult, confirmed []
 			"name": r.Job.Name, "harness": r.Job.Pkg + "." + r.Job.Func, "params": r.Job.Params, "bounds": r.Job.B, "desc": r.Job.Desc,
 			"paths": r.Paths, "forks": r.Forks, "obligations": r.Obligations, "discharged": r.Discharged,
 			"violating_paths": len(r.Violations), "canary": r.Job.Canary, "path_endings": r.Aborts,
-			"solver_queries": r.SolverQueries, "solver_s": r.SolverTime.Seconds(), "wall_s": r.Wall.Seconds(),
+			"solver_queries": r.SolverQueries, "solver_queries_by_backend": r.ByProc, "solver_s": r.SolverTime.Seconds(), "wall_s": r.Wall.Seconds(),
 			"undecided": r.Undecided,
 		})
 	}
